@@ -270,6 +270,8 @@ def run(report, prog, tier):
     rule_collect(report, prog, res)
     rule_dequeue(report, prog, res)
     rule_gates(report, prog, res)
+    from . import c05
+    c05.rule_miu_writes(report, prog, rule='C10-R6')
     report.trusted += ['struct.calcsize semantics', 'len(x.encode()) == len(x) induction for aggregated PDUs']
     report.assumptions += ['raw access point sockets bypass the limit by design (named in the property)']
 
